@@ -404,6 +404,38 @@ func c09Run(s c09Scn) (c09Obs, []Mon) {
 		if mustJSON(cd.Object) != before {
 			mon("C09:extract-mutated-source", "ExtractConnectionDetails modified the composed resource")
 		}
+		// only values produced by the composition: every extracted value is what a config of that
+		// name designates - its fixed value, the named key of the resource's connection secret, or
+		// the named field of the resource
+		conn := c09Map(s.ConnData)
+		for name, v := range out {
+			sourced := false
+			for _, c := range s.Cfgs {
+				if c.Name != name {
+					continue
+				}
+				switch c.Type {
+				case "FromValue":
+					sourced = sourced || (c.HasV && c.Value == string(v))
+				case "FromConnectionSecretKey":
+					cv, ok := conn[c.Key]
+					sourced = sourced || (c.Key != "" && ok && string(cv) == string(v))
+				case "FromFieldPath":
+					if c.Path == "metadata.name" {
+						sourced = sourced || string(v) == "cd"
+					}
+					for _, f := range s.Fields {
+						sourced = sourced || (c.Path == "spec."+f.K && f.V == string(v))
+					}
+				}
+			}
+			if !sourced {
+				mon("C09:extracted-value-unsourced", fmt.Sprintf("extracted %q=%q is not designated by any connection detail config of that name", name, v))
+			}
+		}
+		if err != nil && len(out) > 0 {
+			mon("C09:extracted-value-unsourced", "details returned together with an error")
+		}
 	}
 	return obs, mons
 }
@@ -467,7 +499,40 @@ func c09Gen(r *Rng) c09Scn {
 		s.Swap = r.Chance(1, 4)
 	case "extract":
 		n := r.Range(0, 4)
+		// half of the streams are well-formed lists of 2-6 configs (names repeat: a later config
+		// overrides an earlier one), so that long lists are extracted and not only rejected
+		valid := r.Bool()
+		if valid {
+			n = r.Range(2, 6)
+		}
 		for i := 0; i < n; i++ {
+			if valid {
+				c := c09Extract{Name: Pick(r, []string{"a", "b", "c", "d"})}
+				switch r.Intn(5) {
+				case 0:
+					c.Type, c.HasV, c.Value = "FromValue", true, Pick(r, []string{"fixed", "", fmt.Sprintf("v%d", i)})
+				case 1, 2:
+					c.Type, c.Key = "FromConnectionSecretKey", Pick(r, []string{"user", "pass", "missing"})
+				case 3:
+					c.Type, c.Path = "FromFieldPath", Pick(r, []string{"spec.f1", "spec.f2", "spec.nope", "spec[", "metadata.name"})
+				case 4:
+					c.Type = "Unknown"
+				}
+				if i > 0 && r.Chance(1, 8) {
+					// a later config lacking the field its type needs (earlier ones have it)
+					c.Key, c.Path, c.HasV, c.Value = "", "", false, ""
+					s.Cfgs = append(s.Cfgs, c)
+					continue
+				}
+				if r.Chance(1, 4) && c.Key == "" {
+					c.Key = "user" // fields of the other types are ignored
+				}
+				if r.Chance(1, 4) && !c.HasV {
+					c.HasV, c.Value = true, "stray"
+				}
+				s.Cfgs = append(s.Cfgs, c)
+				continue
+			}
 			c := c09Extract{Type: Pick(r, []string{"FromValue", "FromConnectionSecretKey", "FromFieldPath", "FromFieldPath", "Unknown"}), Name: Pick(r, []string{"a", "b", "c", ""})}
 			if r.Chance(3, 4) {
 				c.Key = Pick(r, []string{"user", "pass", "missing"})
@@ -506,6 +571,18 @@ func init() {
 				c.Emit(ls, lo, lm, "corpus")
 				continue
 			}
+			var ws c09WorldScn
+			if json.Unmarshal(raw, &ws) == nil && ws.Op == "world" {
+				wo, wm := c09WorldRun(ws)
+				c.Emit(ws, wo, wm, "corpus")
+				continue
+			}
+			var fs c09FlowScn
+			if json.Unmarshal(raw, &fs) == nil && fs.Op == "flow" {
+				fo, fm := c09FlowRun(fs)
+				c.Emit(fs, fo, fm, "corpus")
+				continue
+			}
 			var s c09Scn
 			if json.Unmarshal(raw, &s) == nil && s.Op != "" {
 				obs, mons := c09Run(s)
@@ -513,10 +590,23 @@ func init() {
 			}
 		}
 		for i := 0; i < c.N; i++ {
-			if i%6 == 5 {
+			switch i % 12 {
+			case 5:
 				ls := c09LeakGen(c.Rng)
 				lo, lm := c09LeakRun(ls)
 				c.Emit(ls, lo, lm, fmt.Sprintf("ptflow/ctrl=%s/secret=%v/published=%v", ls.Ctrl, ls.CdSecret, lo.XRSecret.Present))
+				continue
+			case 1, 3, 7, 9:
+				// the long-lived publisher / propagator over sequences of owners and secrets
+				ws := c09WorldGen(c.Rng)
+				wo, wm := c09WorldRun(ws)
+				c.Emit(ws, wo, wm, c09WorldCls(ws, wo))
+				continue
+			case 2, 8, 11:
+				// connection details through the real composers, several XRs, one reconciler
+				fs := c09FlowGen(c.Rng)
+				fo, fm := c09FlowRun(fs)
+				c.Emit(fs, fo, fm, c09FlowCls(fs, fo))
 				continue
 			}
 			s := c09Gen(c.Rng)
